@@ -16,8 +16,13 @@
 package main
 
 import (
+	"bytes"
+	"encoding/json"
 	"flag"
 	"fmt"
+	"os"
+	osexec "os/exec"
+	"strconv"
 	"strings"
 	"sync"
 	"sync/atomic"
@@ -348,6 +353,7 @@ type line struct {
 	K     int     `json:"k,omitempty"`
 	Ops   []op    `json:"ops,omitempty"`
 	Other bool    `json:"other,omitempty"`
+	Hook  bool    `json:"hook,omitempty"`
 	Obs   *obs    `json:"obs,omitempty"`
 	Life  []lifeE `json:"life,omitempty"`
 	Coq   bool    `json:"coq"`
@@ -402,7 +408,39 @@ func oracleFresh(s shape, n uint64, plan map[int][]op, o obs, idx []uint64) stri
 	return ""
 }
 
+var depthProgs = []string{"def f(n):\n    d()\n    return f(n + 1)\nf(0)\n", "def f(n):\n    d()\n    return g(n)\ndef g(n):\n    return [f(n + 1) for _ in range(1)]\nf(0)\n"}
+
+type depthOut struct {
+	Res      string `json:"res"`
+	Reason   int    `json:"reason"`
+	MaxDepth int    `json:"max_depth"`
+	Steps    uint64 `json:"steps"`
+	Depth    int    `json:"depth"`
+}
+
+func childDepth(prog int, budget uint64) {
+	maxDepth := 0
+	pre := starlark.StringDict{"d": starlark.NewBuiltin("d", func(t *starlark.Thread, _ *starlark.Builtin, _ starlark.Tuple, _ []starlark.Tuple) (starlark.Value, error) {
+		if n := t.CallStackDepth(); n > maxDepth {
+			maxDepth = n
+		}
+		return starlark.None, nil
+	})}
+	th := &starlark.Thread{}
+	th.SetMaxExecutionSteps(budget)
+	_, err := starlark.ExecFileOptions(opts, th, "p.star", depthProgs[prog], pre)
+	res, reason := classify(err)
+	b, _ := json.Marshal(depthOut{res, reason, maxDepth, th.ExecutionSteps(), th.CallStackDepth()})
+	os.Stdout.Write(b)
+}
+
 func main() {
+	if len(os.Args) > 3 && os.Args[1] == "child-depth" {
+		p, _ := strconv.Atoi(os.Args[2])
+		b, _ := strconv.ParseUint(os.Args[3], 10, 64)
+		childDepth(p, b)
+		return
+	}
 	seed := flag.Uint64("seed", 1, "")
 	ngen := flag.Int("gen", 20, "random programs")
 	capN := flag.Uint64("cap", 400, "largest limit tried on non-terminating programs / measurement cap")
@@ -557,35 +595,38 @@ func main() {
 			}
 		}
 	}
-	// depth: unbounded recursion without a step limit ends with an error at the frame-depth limit
-	{
-		maxDepth := 0
-		pre := starlark.StringDict{"d": starlark.NewBuiltin("d", func(t *starlark.Thread, _ *starlark.Builtin, _ starlark.Tuple, _ []starlark.Tuple) (starlark.Value, error) {
-			if n := t.CallStackDepth(); n > maxDepth {
-				maxDepth = n
+	// depth: unbounded recursion ends with an error at the frame-depth limit -- without a step limit, and with a
+	// budget large enough for the depth limit to come first.  Each run is a child process (a missing limit may
+	// overflow the Go stack and kill it).
+	for di, dc := range []struct {
+		prog   int
+		budget uint64
+	}{{0, 1100000}, {0, 0}, {1, 1500000}} {
+		if di >= *ndepth {
+			break
+		}
+		cmd := osexec.Command(os.Args[0], "child-depth", fmt.Sprint(dc.prog), fmt.Sprint(dc.budget))
+		var outb bytes.Buffer
+		cmd.Stdout = &outb
+		timer := time.AfterFunc(150*time.Second, func() { cmd.Process.Kill() })
+		err := cmd.Run()
+		timer.Stop()
+		var d depthOut
+		viol := ""
+		if err != nil || json.Unmarshal(outb.Bytes(), &d) != nil {
+			viol = fmt.Sprintf("the process running unbounded recursion with budget %d died or hung: %v", dc.budget, err)
+		} else {
+			if d.Res != "err" {
+				viol = fmt.Sprintf("unbounded recursion with budget %d ended with %s/%d at depth %d, not with the frame-depth error", dc.budget, d.Res, d.Reason, d.MaxDepth)
 			}
-			return starlark.None, nil
-		})}
-		for di, src := range []string{"def f(n):\n    d()\n    return f(n + 1)\nf(0)\n", "def f(n):\n    d()\n    return g(n)\ndef g(n):\n    return [f(n + 1) for _ in range(1)]\nf(0)\n"} {
-			if di >= *ndepth {
-				break
+			if d.MaxDepth > 100001 {
+				viol = fmt.Sprintf("call stack reached depth %d (budget %d)", d.MaxDepth, dc.budget)
 			}
-			maxDepth = 0
-			th := &starlark.Thread{}
-			_, err := starlark.ExecFileOptions(opts, th, "p.star", src, pre)
-			res, reason := classify(err)
-			viol := ""
-			if res != "err" {
-				viol = fmt.Sprintf("unbounded recursion ended with %s/%d", res, reason)
-			}
-			if maxDepth > 100001 {
-				viol = fmt.Sprintf("call stack reached depth %d", maxDepth)
-			}
-			if th.CallStackDepth() != 0 {
+			if d.Depth != 0 {
 				viol = "call stack not empty after return"
 			}
-			hx.Emit(line{Kind: "depth", Prog: "unbounded-rec-unlimited", Src: src, N: uint64(maxDepth), Obs: &obs{Res: res, Reason: reason, Steps: th.ExecutionSteps(), Depth: th.CallStackDepth()}, Viol: viol})
 		}
+		hx.Emit(line{Kind: "depth", Prog: "unbounded-rec", Src: depthProgs[dc.prog], N: dc.budget, K: d.MaxDepth, Obs: &obs{Res: d.Res, Reason: d.Reason, Steps: d.Steps, Depth: d.Depth}, Viol: viol})
 	}
 	// life: scripted sequences on one thread: Cancel / Uncancel / SetMaxExecutionSteps / ExecutionSteps / execute
 	for li := 0; li < *nlife; li++ {
@@ -601,6 +642,11 @@ func main() {
 		}
 		th := &starlark.Thread{}
 		th.SetMaxExecutionSteps(n)
+		// one life in three enforces its limit through an OnMaxSteps hook with a reason of its own
+		hook := rr.Intn(3) == 0
+		if hook {
+			th.OnMaxSteps = func(t *starlark.Thread) { t.Cancel(reasons[4]) }
+		}
 		h := &host{}
 		var evs []lifeE
 		m := 2 + rr.Intn(8)
@@ -699,7 +745,78 @@ func main() {
 				cur = probeReason(th, &evs)
 			}
 		}
-		hx.Emit(line{Kind: "life", N: n, Life: evs, Coq: li < *coqBudget/10+20, Viol: viol})
+		hx.Emit(line{Kind: "life", N: n, Hook: hook, Life: evs, Coq: li < *coqBudget/10+20, Viol: viol})
+	}
+	// jump: the step counter gets past the limit without landing on it -- a built-in charges steps by adding to
+	// thread.Steps, or a re-used thread is given a limit below what it has already counted -- with the default
+	// behaviour and with an OnMaxSteps hook that cancels
+	for _, hook := range []bool{false, true} {
+		for _, charge := range []uint64{1, 7, 1000} {
+			for _, limit := range []uint64{5, 6, 9, 40} {
+				th := &starlark.Thread{}
+				th.SetMaxExecutionSteps(limit)
+				want := 0
+				if hook {
+					th.OnMaxSteps = func(t *starlark.Thread) { t.Cancel(reasons[4]) }
+					want = 4
+				}
+				calls := 0
+				var after []uint64
+				jumped := false
+				pre := starlark.StringDict{"b": starlark.NewBuiltin("b", func(t *starlark.Thread, _ *starlark.Builtin, _ starlark.Tuple, _ []starlark.Tuple) (starlark.Value, error) {
+					calls++
+					if jumped {
+						after = append(after, t.Steps)
+					}
+					if calls == 1 {
+						t.Steps += charge // charge for expensive work
+						jumped = t.Steps >= limit
+					}
+					return starlark.None, nil
+				})}
+				src := "b()\nx = 1\nb()\ny = [b() for _ in range(3)]\nb()\n"
+				_, err := starlark.ExecFileOptions(opts, th, "p.star", src, pre)
+				res, reason := classify(err)
+				viol := ""
+				if jumped && len(after) > 0 {
+					viol = fmt.Sprintf("%d more built-in calls after the counter had passed the limit %d (steps %v)", len(after), limit, after)
+				}
+				if jumped && (res != "cancelled" || reason != want) {
+					viol = fmt.Sprintf("counter charged past the limit %d: result %s/%d", limit, res, reason)
+				}
+				if !jumped && th.Steps >= limit && res != "cancelled" {
+					viol = fmt.Sprintf("limit %d, steps %d, result %s", limit, th.Steps, res)
+				}
+				hx.Emit(line{Kind: "jump", Prog: "charge", N: limit, K: int(charge), Hook: hook, Src: src + "# b() adds K to thread.Steps on its first call", Obs: &obs{Res: res, Reason: reason, Steps: th.Steps, NLog: calls}, Viol: viol})
+			}
+		}
+		// a re-used thread: it counts T steps without a limit, then gets a limit below T
+		for _, p := range okProgs {
+			if len(shapes[p.Name].Idx) == 0 || shapes[p.Name].T < 6 {
+				continue
+			}
+			th := &starlark.Thread{}
+			want := 0
+			if hook {
+				th.OnMaxSteps = func(t *starlark.Thread) { t.Cancel(reasons[4]) }
+				want = 4
+			}
+			h := &host{}
+			exec(th, h, p.Src)
+			st := th.ExecutionSteps()
+			for _, lim := range []uint64{1, st / 2, st - 1, st} {
+				th.Uncancel()
+				th.SetMaxExecutionSteps(lim)
+				o := exec(th, h, p.Src)
+				viol := ""
+				if o.Res != "cancelled" || o.Reason != want || o.NLog != 0 {
+					viol = fmt.Sprintf("thread that has counted %d steps, limit then set to %d: result %s/%d, %d built-in calls", st, lim, o.Res, o.Reason, o.NLog)
+				}
+				oo := o
+				hx.Emit(line{Kind: "jump", Prog: p.Name, N: lim, Hook: hook, Obs: &oo, Viol: viol})
+				st = th.ExecutionSteps()
+			}
+		}
 	}
 	// itercancel: host code that is not a call (an iterator's Next) cancels in the middle of a loop whose body makes no calls
 	for _, at := range []int{0, 1, 5, 40} {
